@@ -22,6 +22,7 @@ from . import genir
 from .core import Discard, HarnessError
 
 PROFILE = genir.Profile(name="roundtrip", undef=True, nonfinite=True, permute_blocks=True)
+PROFILE_BIG = genir.Profile(name="roundtrip-big", undef=True, nonfinite=True, permute_blocks=True, max_blocks=12, max_ins=14, max_funcs=4)
 
 FEATURES = ["init", "volatile", "inv", "rot", "copy", "undef", "fexp", "fwd", "uscore", "asm"]
 
@@ -366,14 +367,20 @@ def fragment_features(frag):
     return _frag_features[key]
 
 
+def warm_fragments():
+    """Measure every fragment's features once (call in the parent before forking workers)."""
+    for frag in C_FRAGMENTS:
+        fragment_features(frag)
+
+
 # ---------------------------------------------------------------------------
 # cases
 
 
-def gen_case_strategy(exclude, excluded_counter=None):
+def gen_case_strategy(exclude, excluded_counter=None, profile=PROFILE):
     @st.composite
     def _case(draw):
-        desc = draw(genir.modules(PROFILE))
+        desc = draw(genir.modules(profile))
         for feat in FEATURES:
             if feat in exclude and strip(desc, feat):
                 if excluded_counter is not None:
@@ -381,13 +388,13 @@ def gen_case_strategy(exclude, excluded_counter=None):
         calls = []
         for f in desc["functions"]:
             for _ in range(draw(st.integers(1, 2))):
-                calls.append([f["name"], draw(genir.arg_strategy(f, PROFILE))])
+                calls.append([f["name"], draw(genir.arg_strategy(f, profile))])
         return {"kind": "gen", "module": desc, "calls": calls}
 
     return _case()
 
 
-def c_case_strategy(exclude, excluded_counter=None):
+def c_case_strategy(exclude, excluded_counter=None, profile=PROFILE):
     """exclude: {feature: finding id}."""
 
     @st.composite
@@ -405,7 +412,7 @@ def c_case_strategy(exclude, excluded_counter=None):
                 continue
             usable.append(frag)
         if not usable:
-            return draw(gen_case_strategy(exclude, excluded_counter))
+            return draw(gen_case_strategy(exclude, excluded_counter, profile))
         idx = draw(st.lists(st.integers(0, len(usable) - 1), min_size=1, max_size=4, unique=True))
         frags = [usable[i] for i in sorted(idx)]
         parts = []
@@ -428,9 +435,10 @@ def c_case_strategy(exclude, excluded_counter=None):
     return _case()
 
 
-def case_strategy(exclude, excluded_counter=None, c_weight=1, gen_weight=5):
-    gen = gen_case_strategy(exclude, excluded_counter)
-    c = c_case_strategy(exclude, excluded_counter)
+def case_strategy(exclude, excluded_counter=None, c_weight=1, gen_weight=5, big=False):
+    profile = PROFILE_BIG if big else PROFILE
+    gen = gen_case_strategy(exclude, excluded_counter, profile)
+    c = c_case_strategy(exclude, excluded_counter, profile)
     return st.integers(0, c_weight + gen_weight - 1).flatmap(lambda k: c if k < c_weight else gen)
 
 
@@ -624,6 +632,26 @@ def first_diff(a, b, path=""):
 
 # ---------------------------------------------------------------------------
 # misc
+
+
+class ShrinkCap:
+    """Bounds the work Hypothesis spends on shrinking: after the first unattributed failure of a worker only
+    `limit` further cases are evaluated; later candidates are reported as passing, which ends the shrink passes.
+    (Count based, hence deterministic; the runner re-confirms whatever case is reported.)"""
+
+    def __init__(self, limit):
+        self.limit = limit
+        self.left = None
+
+    def exhausted(self):
+        if self.left is None:
+            return False
+        self.left -= 1
+        return self.left < 0
+
+    def failure_seen(self):
+        if self.left is None:
+            self.left = self.limit
 
 
 def describe_exception(e):
